@@ -124,12 +124,14 @@ def enumerate_cases(tier, shard=0, nshards=1):
 
 # ------------------------------------------------------------------- sampling
 
-LITS = (['2', '3', '5', '7', '11', '13', '4', '10', '0', '1', '25'],
-        ['2.5', '0.5', '1.25', '7.75', '10.5', '0.125'],
+LITS = (['2', '3', '5', '7', '11', '13', '4', '10', '0', '1', '25', '007',
+         '5.', '10.', '03'],
+        ['2.5', '0.5', '1.25', '7.75', '10.5', '0.125', '.5', '.25', '.125',
+         '2.50', '00.5'],
         ['50%', '5%', '200%', '12.5%', '100%', '3%'],
         ['1E1', '2E2', '1.5E1', '3e1', '2.5e+1', '1E+2', '5E-1', '2.5E-1',
          '1.25e-1', '1E0', '7E+0', '12E1', '10e+1', '0.5e-1', '25E-1',
-         '1.5E+02'])
+         '1.5E+02', '.5e1', '5.E1', '.25E+1', '1e+001'])
 REFS = ['A1', 'B1', 'C1', 'D1', 'A2', 'B2', 'C2', 'D2', 'A3', 'B3', 'C3',
         'D3', 'A4', 'B4', 'C4', 'D4']
 POOL = [2, 3, 5, 7, 11, 13, 17, 19, 23, 29, 31, 37, 41, 43, 47, 53]
